@@ -256,11 +256,14 @@ def o_exactly_once(spec, tr):
     for e, _ in maybe:
         wantkeys.add((e["name"], e["trace"]))
         allowed = trace_pos.get(e["root"], set())
+        ep = pref(e["parent"], ids)
         for kk, v in got.items():
-            if kk[0] == e["name"] and kk[1] == e["trace"] and any(p not in allowed for p in v):
+            # (two roots may share a trace id — a root created from an extracted context: tell the copies apart by parent)
+            if kk[0] == e["name"] and kk[1] == e["trace"] and (ep is None or kk[2] == ep) and any(p not in allowed for p in v):
                 out.append("span %r of trace %x finished after its root; it may only be delivered together with the trace (line %s), was delivered at %s" % (e["name"], e["trace"], sorted(allowed), v))
     for e in never:
-        n = sum(len(v) for kk, v in got.items() if kk[0] == e["name"] and kk[1] == e["trace"])
+        ep = pref(e["parent"], ids)
+        n = sum(len(v) for kk, v in got.items() if kk[0] == e["name"] and kk[1] == e["trace"] and (ep is None or kk[2] == ep))
         if n and (e["name"], e["trace"]) not in wantkeys:
             trc = spec.traces[e["root"]]
             why = "its trace was cancelled" if trc["cancelled"] else "its root never finished" if trc["commit_pos"] is None else "it finished after its root"
@@ -437,11 +440,12 @@ def o_times(spec, tr, times):
         if ok_pos(b) and ok_pos(c):
             lo = T[c][0] - T[b][1]
             hi = T[c][1] - T[b][0]
-            tol = 150_000 + r["dur"] // 5000
+            tol = 150_000 + r["dur"] // 1000      # TSC calibration of the library's clock against std's: up to 0.1 %
             if not (lo - tol <= r["dur"] <= hi + tol):
                 out.append("record %r: duration %d ns, but its span started during [%d,%d] and finished during [%d,%d] of the run (monotonic ns): expected %d..%d"
                            % (r["name"], r["dur"], T[b][0], T[b][1], T[c][0], T[c][1], lo, hi))
-            if not (T[b][2] - 3_000_000 <= r["begin"] <= T[b][3] + 3_000_000):
+            wtol = 3_000_000 + r["dur"] // 500   # the anchor is taken at report time: calibration error grows with the distance
+            if not (T[b][2] - wtol <= r["begin"] <= T[b][3] + wtol):
                 out.append("record %r: begin time %d is outside the wall-clock window [%d,%d] of the call that created the span" % (r["name"], r["begin"], T[b][2], T[b][3]))
         for ts in r["evt"]:
             if not (r["begin"] - 100_000 <= ts <= r["begin"] + r["dur"] + 100_000):
@@ -462,12 +466,13 @@ def o_times(spec, tr, times):
                 continue        # parent is a thread-safe span: may legitimately finish on another schedule
             if r["begin"] + 1 < p["begin"] or r["begin"] + r["dur"] > p["begin"] + p["dur"] + 1:
                 out.append("local span %r [%d,+%d] is not within its enclosing local span %r [%d,+%d]" % (r["name"], r["begin"], r["dur"], p["name"], p["begin"], p["dur"]))
-            kids.setdefault((p["id"], r["trace"]), []).append((es[0].get("born") or 0, r))
+            kids.setdefault((p["id"], r["trace"]), []).append(r)
         for k, lst in kids.items():
-            lst.sort(key=lambda x: x[0])
-            for (_, a), (_, b) in zip(lst, lst[1:]):
-                if a["name"] != b["name"] and a["begin"] + a["dur"] > b["begin"] + 1:
-                    out.append("sibling local spans %r and %r overlap" % (a["name"], b["name"]))
+            # siblings under one local span, in the order they began: each ends before the next begins
+            lst.sort(key=lambda x: (x["begin"], x["begin"] + x["dur"]))
+            for a, b in zip(lst, lst[1:]):
+                if a["id"] != b["id"] and a["begin"] + a["dur"] > b["begin"] + 1:
+                    out.append("sibling local spans %r [%d,+%d] and %r [%d,+%d] overlap" % (a["name"], a["begin"], a["dur"], b["name"], b["begin"], b["dur"]))
     # elapsed()
     for pos, ns in tr.elapsed.items():
         v = tr.lines[pos].split()[2]
